@@ -44,6 +44,13 @@ Fixpoint leaf_names (bf : bool) (d : adef) : list string :=
   | ABits n _ fl => if bf then filter (fun k => negb (starts_with "reserved" k)) (map fst fl) else [n]
   | AGroup _ _ body => flat_map (leaf_names bf) body
   end.
+(* the keyword namespace of the bitfield-parsing view: every flag, reserved ones included, reads kwargs[name] *)
+Fixpoint kw_names (d : adef) : list string :=
+  match d with
+  | ASingle n _ | AScaled n _ _ => [n]
+  | ABits _ _ fl => map fst fl
+  | AGroup _ _ body => flat_map kw_names body
+  end.
 Fixpoint all_names (d : adef) : list string :=
   match d with
   | ASingle n _ | AScaled n _ _ => [n]
@@ -98,7 +105,8 @@ Definition collides (n : string) : bool :=
 
 Definition def_rules (ds : list adef) : list rule :=
   check_top [] ds ++
-  (if nodup_s (flat_map (leaf_names true) ds) && nodup_s (flat_map (leaf_names false) ds) then [] else [RDupName]) ++
+  (if nodup_s (flat_map (leaf_names true) ds) && nodup_s (flat_map (leaf_names false) ds)
+      && nodup_s (flat_map kw_names ds) then [] else [RDupName]) ++
   (* only top-level names are exposed unsuffixed; group members carry _NN *)
   (if existsb collides (flat_map (fun d => match d with AGroup _ _ _ => [] | _ => all_names d end) ds)
    then [RCollide] else []) ++
